@@ -23,7 +23,8 @@ import (
 // the period ends `period` seconds after its first take (Align: at the next multiple
 // of `period` on the local clock of the caller).  The server order and instants come
 // from OnExec, so the model is exact also under faults; what a CLIENT gets must be
-// the code of one of its own executions or, under faults only, (Unknown, err).
+// the code of one of its own executions or, under faults only, (Unknown, err); a call
+// whose own context ended (ctx_test.go) may also get (Unknown, context error), nothing else.
 
 type pKey struct {
 	full    string
@@ -40,10 +41,10 @@ type pExec struct {
 }
 
 type pCall struct {
-	key       *pKey
-	start     time.Time
-	execs     []pExec
-	cancelled bool
+	key   *pKey
+	start time.Time
+	execs []pExec
+	cx    *cxPlan
 }
 
 type pWorld struct {
@@ -57,6 +58,8 @@ type pWorld struct {
 	takes, grants int
 	noscript      int // NOSCRIPT replies (EVALSHA before the script was loaded)
 	execs         int
+	cancellers    []*simrt.Task
+	cxErrs        int // calls that ended with the error of their own context
 }
 
 func (w *pWorld) wantCode(i int) int64 {
@@ -89,6 +92,9 @@ func (w *pWorld) onExec(e *simredis.Exec) {
 	}
 	kind, v, msg := reply(e.Reply)
 	r.Ev("pexec", int64(e.Cmd.Task), int64(kind), v)
+	if pc := w.cur[e.Cmd.Task]; pc != nil {
+		pc.cx.onExec(r)
+	}
 	if kind == 'e' {
 		if len(msg) >= 8 && msg[:8] == "NOSCRIPT" {
 			w.noscript++
@@ -190,23 +196,46 @@ func (w *pWorld) checkCall(c *pCall, code int, err error) {
 	if len(c.execs) > 1 {
 		r.Probe("period-take-retried")
 	}
-	if c.cancelled {
-		r.Probe("period-cancelled-context")
-		if err == nil || code != limit.Unknown {
-			w.note(3, "period-cancelled-context", "TakeCtx with a cancelled context returned (%d, %v)", code, err)
+	if c.cx.preEnded() {
+		// the context was over before the call: nothing may be taken on its behalf
+		if c.cx.kind == cxCancelled {
+			r.Probe("period-cancelled-context")
+			if err == nil || code != limit.Unknown {
+				w.note(3, "period-cancelled-context", "TakeCtx with a cancelled context returned (%d, %v)", code, err)
+			}
+		} else {
+			r.Probe("period-expired-context")
+			if err == nil || code != limit.Unknown {
+				w.note(3, "period-expired-context", "TakeCtx with a context whose deadline had passed %v before the call returned (%d, %v)", c.cx.d, code, err)
+			}
 		}
 		return
+	}
+	if c.cx.ended {
+		r.Probe("period-call-context-ended-during-call")
+		if len(c.execs) > 0 {
+			r.Probe("period-context-ended-request-executed-anyway")
+		}
 	}
 	if err != nil {
 		r.Probe("period-take-error")
 		if code != limit.Unknown {
 			w.note(1, "period-error-with-code", "Take returned code %d together with error %v", code, err)
 		}
+		if c.cx.ended && isCtxErr(err) {
+			// the caller's context ended while the call ran and the call says so: no store
+			// error, no grant - acceptable in every member, whatever the server did meanwhile
+			r.Probe("period-take-ended-by-own-context")
+			w.cxErrs++
+			return
+		}
 		if !w.faulty {
 			if errors.Is(err, breaker.ErrServiceUnavailable) && w.noscript > 5 {
 				// observed: concurrent first takes on a cold script cache each get NOSCRIPT, the
 				// redis breaker counts those replies as failures and starts rejecting
 				w.note(4, "period-error-store-healthy/breaker-open-after-noscript", "Take on %s was rejected (%v) on a healthy store without any injected fault, after %d NOSCRIPT replies to concurrent first takes were counted as failures by the redis breaker", c.key.full, err, w.noscript)
+			} else if errors.Is(err, breaker.ErrServiceUnavailable) && w.cxErrs > 0 {
+				w.note(4, "period-error-store-healthy/breaker-open-after-caller-context-ended", "Take on %s was rejected (%v) on a healthy store without any injected fault, after %d calls had ended with the error of their own context (deadline / cancellation while the call ran)", c.key.full, err, w.cxErrs)
 			} else {
 				w.note(4, "period-error-without-fault", "Take on %s failed without any injected fault: %v", c.key.full, err)
 			}
@@ -285,6 +314,9 @@ func periodRun(r *simrt.Run, tier string, faulty bool) {
 	}
 	nOps := t.Range(1, maxOps)
 	nLim := t.Range(1, 2)
+	// cold start: in a quarter of the runs every client sends its first take right away (the
+	// whole group meets the fresh server - empty script cache, no connections - at once)
+	herd := t.Chance(1, 4)
 	offset := time.Duration(t.Intn(w.period*1000+1000)) * time.Millisecond
 
 	srv := simredis.New(r)
@@ -293,11 +325,20 @@ func periodRun(r *simrt.Run, tier string, faulty bool) {
 	faultsOn := true
 	var rates simredis.Rates
 	outage := false
+	var pol func(*simredis.Cmd) simredis.Fault
 	if faulty {
 		rates = faultRates(t, &faultsOn)
-		srv.Fault = simredis.Policy(r, rates)
+		pol = simredis.Policy(r, rates)
 		outage = t.Chance(1, 3)
 	}
+	// (all members: calls whose context is due to end are stretched across that instant)
+	srv.Fault = cxFault(r, pol, func(task int) *cxPlan {
+		if c := w.cur[task]; c != nil {
+			return c.cx
+		}
+		return nil
+	})
+	often := cxOften(t)
 	prefix := "pl:"
 	var opts []limit.PeriodOption
 	if w.align {
@@ -332,7 +373,11 @@ func periodRun(r *simrt.Run, tier string, faulty bool) {
 					kn = keyNames[t.Intn(nKeys)]
 				}
 				ks := w.keys[prefix+kn]
-				switch t.Intn(8) {
+				think := t.Intn(8)
+				if herd && j == 0 {
+					think = 0
+				}
+				switch think {
 				case 0, 1, 2:
 				case 3:
 					r.Sleep(time.Duration(t.Range(1, 20)) * time.Millisecond)
@@ -349,16 +394,19 @@ func periodRun(r *simrt.Run, tier string, faulty bool) {
 				default:
 					r.Sleep(time.Duration(w.period)*time.Second + time.Duration(t.Intn(1000))*time.Millisecond)
 				}
-				c := &pCall{key: ks, start: time.Now()}
-				ctx := context.Background()
-				if t.Chance(1, 16) {
-					cctx, cancel := context.WithCancel(ctx)
-					cancel()
-					ctx, c.cancelled = cctx, true
-				}
+				c := &pCall{key: ks, start: time.Now(), cx: drawCx(t, often)}
 				w.cur[tid] = c
-				r.Ev("take", int64(i), int64(j))
-				code, err := l.TakeCtx(ctx, kn)
+				r.Ev("take", int64(i), int64(j), int64(c.cx.kind))
+				var code int
+				var err error
+				if ctx := c.cx.open(r, &w.cancellers); ctx != nil {
+					code, err = l.TakeCtx(ctx, kn)
+				} else if t.Bool() {
+					code, err = l.TakeCtx(context.Background(), kn)
+				} else {
+					code, err = l.Take(kn)
+				}
+				c.cx.close(r)
 				delete(w.cur, tid)
 				ec := int64(0)
 				if err != nil {
@@ -366,7 +414,7 @@ func periodRun(r *simrt.Run, tier string, faulty bool) {
 				}
 				r.Ev("taken", int64(i), int64(code), ec)
 				if r.Tracing() {
-					r.Logf("client%d: Take(%s) -> (%d, %v) execs=%v", i, kn, code, err, c.execs)
+					r.Logf("client%d: Take(%s, ctx %v d=%v trig=%d ended=%v) -> (%d, %v) execs=%v", i, kn, c.cx.kind, c.cx.d, c.cx.trig, c.cx.ended, code, err, c.execs)
 				}
 				w.checkCall(c, code, err)
 			}
@@ -388,6 +436,10 @@ func periodRun(r *simrt.Run, tier string, faulty bool) {
 		r.Fail("stuck", "period clients did not return: %v", r.AliveTasks())
 		return
 	}
+	if !r.JoinTimeout(time.Hour, w.cancellers...) {
+		r.Fail("stuck", "context cancellers did not return")
+		return
+	}
 	faultsOn = false
 	if ctl != nil {
 		r.JoinTimeout(time.Hour, ctl)
@@ -401,7 +453,7 @@ func periodRun(r *simrt.Run, tier string, faulty bool) {
 		r.Probe("period-granted")
 	}
 	r.Sample(map[string]any{"component": "PeriodLimit", "faulty": faulty, "period_s": w.period, "quota": w.quota, "align": w.align, "keys": nKeys,
-		"client_tasks": nTasks, "takes_per_task": nOps, "limiter_instances": nLim, "initial_offset": offset.String(), "outage": outage,
+		"client_tasks": nTasks, "takes_per_task": nOps, "limiter_instances": nLim, "cold_start_herd": herd, "initial_offset": offset.String(), "outage": outage, "calls_with_own_context_per_24": often,
 		"takes": w.takes, "client_grants": w.grants, "executed_takes": w.execs, "faults_fired": srv.FiredMap()})
 	w.flush()
 }
